@@ -1,7 +1,7 @@
 (** Property C01 — theorems only.  [run] is the reference semantics (Core.Sem); the extracted [run] is
     the oracle of the failing-input search in harness/props/C01.py. *)
 From Coq Require Import ZArith List Bool.
-From Core Require Import Syntax Sem Equiv PartialEval PartialEvalSound Subst RewriteAt ShiftLoop DivideLoop FissionFuse ReorderLoops RewriteAtL RemoveLoop UnrollLoop.
+From Core Require Import Syntax Sem Equiv PartialEval PartialEvalSound Subst RewriteAt ShiftLoop DivideLoop FissionFuse ReorderLoops RewriteAtL RemoveLoop UnrollLoop CutLoop.
 Import ListNotations.
 Local Open Scope Z_scope.
 
@@ -312,3 +312,11 @@ Theorem C01_unroll_proc : forall i p,
   UnrollLoop.unroll_ok_proc i p = true -> preserves p (UnrollLoop.unroll_proc i p).
 Proof. intros i p H inp bufs cfg. apply UnrollLoop.unroll_proc_preserves, H. Qed.
 Print Assumptions C01_unroll_proc.
+
+(** cut_loop on the whole procedure (second loop = renamed copy), under the contract lo <= cut <= hi that the
+    implementation establishes with Check_CompareExprs *)
+Theorem C01_cut_proc : forall i i2 mid p,
+  (forall s l, CutLoop.cut_f i i2 mid s = Some l -> CutLoop.cut_sem_ok mid s) ->
+  CutLoop.cut_ok_proc i i2 mid p = true -> preserves p (CutLoop.cut_proc i i2 mid p).
+Proof. intros i i2 mid p Hs H inp bufs cfg. apply CutLoop.cut_proc_preserves; assumption. Qed.
+Print Assumptions C01_cut_proc.
